@@ -254,7 +254,7 @@ impl Memfs {
         // Validate the path itself, links are never mistaken for what they point to
         if let Some(x) = guard.get_entry(&path) {
             // An existing link to a directory satisfies a request for that directory
-            if entry.is_symlink() != x.is_symlink() && !(entry.is_dir() && x.is_dir()) {
+            if entry.is_symlink() != x.is_symlink() && !(!entry.is_symlink() && entry.is_dir() && x.is_dir()) {
                 return Err(match (entry.is_symlink(), entry.is_file()) {
                     (true, _) => PathError::is_not_symlink(&path),
                     (false, true) => PathError::is_not_file(&path),
